@@ -67,7 +67,10 @@ sympy expressions over symbols, exact rationals (float constants are converted e
     `fmuladd` = a*b+c, memcpy/memmove/memset(0) of constant size on the byte-addressed store;
   * calls to functions *defined* in the module are evaluated by substitution (recursively, same store).
 
-Outside the fragment => `Undecided`: a back edge (loop), an indirect or unknown call, an unmodelled
+Loops are not summarised; they are *executed* symbolically, so a loop with compile-time-constant bounds (`for (i = 0; i < 4;
+i++)`) is unrolled and decided, while a loop whose trip count depends on an input forks at every exit test and ends in
+`Undecided` after MAX_UNROLL visits (`summary(unroll=False)` rejects every back edge).
+Outside the fragment => `Undecided`: a loop not bounded by constants, an indirect or unknown call, an unmodelled
 instruction, a load of uninitialised or partially overlapping memory, more than MAX_PATHS paths.
 Never treat Undecided as a pass.
 
@@ -103,6 +106,7 @@ from fractions import Fraction
 import sympy as sp
 
 MAX_PATHS = 256
+MAX_UNROLL = 64          # visits of one block on one path (loops are executed symbolically, never summarised)
 MAX_CASES = 4096
 MAX_CALL_DEPTH = 12
 
@@ -1564,6 +1568,8 @@ class Function:
 
     def summary(self, **opts):
         """symbolic summary; options:
+             unroll=True     execute loops symbolically (a loop whose exit tests become constants is thereby unrolled;
+                             more than max_unroll=64 visits of a block on one path => Undecided); False: any back edge => Undecided
              rounding=False  multiply every rounded fp operation by (1 + _d<k>)
              nonneg=()       names of input symbols (or a predicate on the name) known to be >= 0
              fits=None       callable(term, from_bits, to_bits, signed) -> reason string | None: accept a narrowing
@@ -1703,10 +1709,12 @@ class Path:
         self.ret = None
         self.aborted = False
         self.fpvals = []      # (name of the rounding symbol | None, exact term) of every rounded fp operation, in order
+        self.visits = {}      # (function, depth, block) -> number of times this path entered the block
 
     def fork(self):
         p = Path()
         p.fpvals = list(self.fpvals)
+        p.visits = dict(self.visits)
         p.guard = list(self.guard)
         p.mem = self.mem
         p.nround = self.nround
@@ -1758,6 +1766,8 @@ class Interp:
         self.input_kinds = {}
         self.npaths = 0
         self.argtypes = {}      # base -> [(offset, scalar type)] of the pointee of a pointer argument
+        self.unroll = opts.get('unroll', True)
+        self.max_unroll = opts.get('max_unroll', MAX_UNROLL)
 
     # ---------------------------------------------------------------- inputs
     def input_scalar(self, name, ty):
@@ -2572,7 +2582,8 @@ class Interp:
     def exec_fn(self, fn, args, P0, depth):
         if depth > MAX_CALL_DEPTH:
             raise Undecided('call depth')
-        fn.check_loop_free()
+        if not self.unroll:
+            fn.check_loop_free()
         env0 = {}
         for (ty, nm), v in zip(fn.params, args):
             env0[nm] = v
@@ -2583,6 +2594,11 @@ class Interp:
             blk = fn.blocks[bname]
             ins = blk.ins
             if idx == 0:
+                vk = (fn.name, depth, bname)
+                P.visits[vk] = P.visits.get(vk, 0) + 1
+                if P.visits[vk] > self.max_unroll:
+                    raise Undecided('%s: loop through %s is not bounded by compile-time constants (more than %d iterations on one path)'
+                                    % (fn.name, bname, self.max_unroll))
                 # phis first (parallel assignment)
                 newv = {}
                 while idx < len(ins) and ins[idx].op == 'phi':
@@ -2957,12 +2973,17 @@ class Summary:
                     pieces[(o2 + shift, s2)] = w2
             return got
         it = self.interp
-        if not smem.logs.get(sbase) and sbase in it.argtypes:
+        if sbase in it.argtypes and _is_int(soff):
             tl = [(so, t) for (so, t) in it.argtypes[sbase] if soff <= so and so + it.L.size(t) <= soff + s]
             if tl and sum(it.L.size(t) for _, t in tl) == s:
-                for (so, t) in tl:
-                    out['%s[%s]' % (bn, o + so - soff)] = it.load_scalar(smem, t, sbase, so)
-                return
+                try:
+                    vals = [(so, it.load_scalar(smem, t, sbase, so)) for (so, t) in tl]
+                except Undecided:
+                    vals = None
+                if vals is not None:
+                    for (so, v) in vals:
+                        out['%s[%s]' % (bn, o + so - soff)] = v
+                    return
         if not collect(smem, sbase, soff, soff + s, o - soff) or sbase[0] != 'alloca':
             if sbase[0] != 'alloca':
                 out['%s[%s..+%d]' % (bn, o, s)] = FpV(0, atom('copy', sym(base_name(sbase)), soff, s))
